@@ -18,6 +18,9 @@ def cls(name):
 
 def _ang(rng, unit):
     a = gen.angle(rng)
+    if unit == 'deg' and rng.random() < 0.15:
+        # exact whole degrees (quarter turns and the like): what a user types, not pi/2 * 180/pi with its rounding
+        return float([0, 90, 180, 270, 360, -90, -180, -270, 45, 30, 60, 720, -360][rng.integers(13)])
     return a * 180 / math.pi if unit == 'deg' else a
 
 
@@ -140,7 +143,9 @@ def _ctor(rng, clsname, multi=False):
             if k == 1:   # normalising constructor (s, v)
                 q = gen.vec(rng, 4, 1e-3, 1e3)
                 return '', [float(q[0]), q[1:].tolist()], {}
-            if k == 2:   # from rotation matrix
+            if k == 2:   # from rotation matrix (one in three an exact rotation held in a narrow element type)
+                if rng.random() < 0.33:
+                    return '', [gen.exact_so3(rng, ['float32', 'float16', 'int8', 'int64'][rng.integers(4)])], {}
                 return '', [gen.so3(rng)], {}
             if k == 3:   # Vec3
                 q = gen.unit_quat(rng)
@@ -154,6 +159,8 @@ def _ctor(rng, clsname, multi=False):
                 return rotation_ctor(rng, clsname)
             if r < 0.9:
                 return 'Rand', [], {'_seed': int(rng.integers(2 ** 31))}
+            if rng.random() < 0.3:
+                return '', [gen.exact_so3(rng, ['float32', 'float16', 'int8', 'int64'][rng.integers(4)])], {}
             return '', [gen.so3(rng)], {}
         # SE3
         if r < 0.45:
